@@ -104,7 +104,9 @@ IDENTS = ["a", "b", "c", "x", "y", "f", "g", "total", "item_1", "_t", "iffy", "a
 NUMS = ["0", "1", "2", "42", "1000000", "0.5", "2.5", "3.14159", "1e3", "1_000", "0x1F", "0b101", "12.75", "100.0"]
 STRS = ['"s"', '""', '"hello world"', "'single'", "'say \"hi\"'", '"it\'s"', '"back\\\\slash"', '"a // b"',
         '"héllo"', '"tab\there"', "'x\\\\y'", '"{brace}"', '"(paren)"']
-KEYS = ["k", "name", "_x", "if2", '"two words"', '"if"', '"a-b"', "'q\"k'", '"1st"', "via", "k9"]
+KEYS = ["k", "name", "_x", "if2", '"two words"', '"if"', '"a-b"', "'q\"k'", '"1st"', "via", "k9",
+        # keys that are identifiers for Unicode-aware predicates but not for the (ASCII) grammar
+        '"café"', '"x²"', '"naïve_key"', '"日本"', '"é"', '"k_ñ9"']
 
 
 class TreeGen:
